@@ -149,6 +149,8 @@ class C18(Prop):
                 return td.DROP
             if mode["login"] == "big" and frames.classify(frame) not in ("login", "login2"):
                 return healthy(conn, idx, frame) + bytes(6000)     # a chatty device: far more than the client asks for
+            if mode["login"] == "biglogin" and frames.classify(frame) in ("login", "login2"):
+                return healthy(conn, idx, frame) + bytes(1500)     # ... already at the login: the first read comes back full
             return healthy(conn, idx, frame)
 
         dev.responder = responder
@@ -331,7 +333,7 @@ class C18(Prop):
                     acc.violation("healthy-operation-failed", f"history {history}: operation on a healthy connection ended with {out}", {"history": history, "trace": trace})
             elif a == "op_big":
                 # the device answers with 6 KB and then pushes a little more, unasked; the client leaves most of it unread
-                mode["login"] = "big"
+                mode["login"] = "big" if rs.random() < 0.6 else "biglogin"
                 out = await do_op()
                 mode["login"] = "ok"
                 conn_now = cur["conn"]
@@ -441,6 +443,12 @@ class C18(Prop):
                                 # the usual reason a body fails: the device went quiet; it ends every later exchange at the login
                                 mode["login"] = "eof"
                             # ... though what the body raises need not have anything to do with this client's socket
+                            if issubclass(body_exc, OSError) and rs.random() < 0.6:
+                                # as the operating system raises them: with an errno (the failure of some other socket of the application)
+                                import os as _os
+
+                                eno = {ConnectionResetError: 104, TimeoutError: 110, ConnectionRefusedError: 111, BrokenPipeError: 32}.get(body_exc, 5)
+                                raise body_exc(eno, _os.strerror(eno))
                             raise body_exc("raised by the body of async with")
 
                 try:
@@ -472,6 +480,14 @@ class C18(Prop):
                 await expect_eof(a)
                 cur["conn"] = None
             check_flag(a)
+            if model and cur["conn"] is not None and not cur["dropped"] and not cur["conn"].closed:
+                # connected means connected: the device must not have seen this client's end-of-stream yet
+                for _ in range(4):
+                    await asyncio.sleep(0)
+                if cur["conn"].eof_seen.is_set():
+                    acc.violation("socket-closed-while-connected", f"type {t} history {history}: after {a!r} the client reports connected={api.connected} but the device "
+                                  f"has already seen the end of this connection", {"history": history, "after": a, "trace": trace})
+                    cur["dropped"] = True
             if bystander.connected is not True or (bconn is not None and bconn.eof_seen.is_set()):
                 acc.violation("other-instance-affected", f"type {t} history {history}: after {a!r} an independent, connected instance reports "
                               f"connected={bystander.connected}, its device saw end-of-stream: {bconn.eof_seen.is_set() if bconn else '?'}",
